@@ -109,7 +109,7 @@ t2data_format_specification = {
     'xyz1'  : [['deg'], ['10.4e']],
     'xyz2'  : [['ntype', '', 'no', 'del'], ['2s', '3x', '5d', '10.4e']],
     'xyz3'  : [['deli'] * 8, ['10.4e'] * 8], 
-    'minc'  : [['part', 'type', '', 'dual'], ['5s'] * 2 + ['5x', '5s']],
+    'minc'  : [['part', 'type', '', 'dual'], ['5s', '-5s', '5x', '-5s']],
     'part1' : [['num_continua', 'nvol', 'where'] + ['spacing'] * 7,
                ['3d'] * 2 + ['-4s'] + ['10.4e'] * 7],
     'part2' : [['vol'] * 8, ['10.4e'] * 8]
@@ -1361,7 +1361,7 @@ class t2data(object):
 
     def read_meshmaker_minc(self, infile):
         """Reads MINC meshmaker data"""
-        line = infile.readline().strip()
+        line = padstring(infile.readline().rstrip('\n'))
         keyword = line[0: 5].strip()
         if keyword == 'PART':
             subsection = {}
